@@ -821,6 +821,10 @@ class Models:
     def x_datetime_datetime(self):
         return DatetimeClass()
 
+    def x_threading_get_ident(self):
+        # a single thread (stated assumption): the identifier of "this" thread is one fixed number
+        return Builtin('threading.get_ident', lambda ex_, a, k: 0)
+
     def x_pkg_resources_get_distribution(self):
         return Builtin('pkg_resources.get_distribution', lambda ex_, a, k: DistributionObj())
 
